@@ -320,8 +320,18 @@ func runC12(sc *Scenario, st *Stats) []Violation {
 		}
 		kinds := []Fault{{Call: e.Seq, Kind: FErr}, {Call: e.Seq, Kind: FApplied}}
 		if e.Op == OpBPut || e.Op == OpBDel {
-			for p := 0; p <= len(e.Keys); p++ {
-				kinds = append(kinds, Fault{Call: e.Seq, Kind: FPartial, Part: p})
+			n := len(e.Keys)
+			if n <= 12 {
+				for p := 0; p <= n; p++ {
+					kinds = append(kinds, Fault{Call: e.Seq, Kind: FPartial, Part: p})
+				}
+			} else {
+				// long batches: the ends, the middle and the thresholds a chunked writer might use
+				for _, p := range []int{0, 1, n / 2, n - 1, n, 32, 64, 256, 1024} {
+					if p <= n {
+						kinds = append(kinds, Fault{Call: e.Seq, Kind: FPartial, Part: p})
+					}
+				}
 			}
 		}
 		if len(sc.Faults) > 0 {
